@@ -39,6 +39,10 @@ type G struct {
 	depth   int
 	used    map[string]bool // accounts already emptied by the current send's sources
 	BadRate int // 1 in BadRate choices is deliberately ill-formed
+	// Wild: an ill-formed choice in an account or monetary position is an expression of ANY type (literal of every
+	// kind, arithmetic on numbers, variables of every type), not only the neighbouring type
+	Wild   bool
+	wdepth int
 }
 
 func NewG(r *vx.Rng) *G { return &G{r: r, byType: map[string][]string{}, used: map[string]bool{}, BadRate: 120} }
@@ -54,6 +58,9 @@ func (g *G) varOf(ty string) *Expr {
 }
 func (g *G) accountExpr() *Expr {
 	if g.bad() {
+		if g.Wild {
+			return g.anyExpr() // any type, incl. arithmetic on numbers and variables of every type
+		}
 		return g.monetary("")
 	}
 	if v := g.varOf("account"); v != nil {
@@ -81,6 +88,12 @@ func (g *G) monLit(asset string) *Expr {
 }
 func (g *G) monetary(asset string) *Expr {
 	if g.bad() {
+		if g.Wild && g.wdepth < 3 {
+			g.wdepth++
+			e := g.anyExpr()
+			g.wdepth--
+			return e
+		}
 		return &Expr{K: "num", Text: "5"}
 	}
 	switch g.r.Intn(8) {
